@@ -213,6 +213,47 @@ def judge(chk, res, stats):
     return rev
 
 
+def judge_probe(chk, res, stats):
+    """fixed probe of a finding: the oracle is meta["spec_seq"] (what the language specification requires), not the reference"""
+    name, files, meta = res["name"], res["files"], res["meta"]
+    fid = meta["finding"]
+    rf = dict(("src/" + k, v) for k, v in files.items())
+    rf["meta.json"] = json.dumps(meta, indent=1)
+    rf["replay.sh"] = REPLAY_SH
+    ref, got = res["go124"], res["llgo"]
+    if ref[0] != "ran" or ref[1].kind != "exit" or ref[1].rc != 0:
+        core.broken("C12: probe %s does not build/run with the reference toolchain" % name)
+    rev, _ = parse_trace(ref[1].err)
+    want = meta["spec_seq"]
+
+    def deviates(ev):
+        return any([[l, v] for (p, l, v) in ev if p == q] != want[q] for q in want)
+    stats["probe_" + fid] = {"reference_deviates_from_spec_too": deviates(rev)}
+    chk.cov["evaluations"] += 1
+    chk.sig(meta["sig"])
+    if got[0] != "ran":
+        rf["llgo-build.log"] = got[1]
+        report(chk, name + "-llgo-build", rf, "[compile-failure] llgo cannot build probe %s:\n%s" % (name, got[1][-1200:]))
+        return
+    g = got[1]
+    gev, gother = parse_trace(g.err)
+    rf["trace.go.txt"] = ref[1].err
+    rf["trace.llgo.txt"] = g.err
+    structural = monitor(meta, gev)          # once / dependencies first / main last still have to hold
+    if g.kind != "exit" or g.rc != 0:
+        structural.insert(0, ("termination", "llgo program ended with %s rc=%s; %s" % (g.kind, g.rc, " | ".join(gother[-3:]))))
+    if structural:
+        report(chk, name, rf, "[%s] probe %s: %s" % (",".join(sorted(set(p[0] for p in structural))), name, structural[0][1]))
+        return
+    bad = deviates(gev)
+    stats["probe_" + fid]["llgo_deviates_from_spec"] = bad
+    if bad:
+        mine = ["%s %s" % (l, v) for (p, l, v) in gev if p == "p0"]
+        if not chk.known(fid, ""):
+            report(chk, name, rf, "[var-order] probe %s: package variables are not initialised in dependency order: got `%s`, the spec requires `%s`" % (
+                name, ", ".join(mine), ", ".join("%s %s" % tuple(x) for x in want["p0"])))
+
+
 def new_stats():
     return {"programs": 0, "events_compared": 0, "packages": 0, "edges_checked": 0, "invalid_generated": 0, "invalid_detail": [],
             "reference_disagreement": 0, "reference_disagreement_cases": [], "features": {}, "shapes": {}, "npkgs": {},
@@ -283,6 +324,8 @@ cases = []
 for name, files, meta in fixed.programs(heavy=2):
     cases.append(("fixed-" + name, files, meta))
 first = run_case(w, llgo, cases[0][0], cases[0][1], cases[0][2], go126, procs="8")
+for name, files, meta in fixed.probes():
+    cases.append(("probe-" + name, files, meta))
 N = int(os.environ.get("VERIF_C12_GRAPHS", "25" if QUICK else "600"))
 heavy = 1
 for i in range(N):
@@ -294,6 +337,9 @@ workers = int(os.environ.get("VERIF_C12_WORKERS", "8"))
 results = [first] + core.pmap(lambda c: run_case(w, llgo, c[0], c[1], c[2], go126), cases[1:], workers=min(workers, 8))
 sampled = 0
 for res in results:
+    if "spec_seq" in res["meta"]:
+        judge_probe(chk, res, stats)
+        continue
     rev = judge(chk, res, stats)
     if rev and sampled < 2 and res["name"].startswith("g"):
         sampled += 1
